@@ -191,6 +191,9 @@ StepRelationAnyUnit ==
         LET r == Returned(u)
         IN  \A k \in 1..i : HydroStepRelUnit(XMul, XAdd, REqual, u, r.z[k], r.z[k + 1], XSub(r.z[k + 1], r.z[k]),
                                              r.H[k], r.g[k], Q(T[k]), mu[k], Lr(k), Q(rad), Q(gm), kB)
+\* evaluating the model leaves the exposed structure as the recurrence built it (z[1] = 0 and the step
+\* relation determine z, g and H uniquely from the inputs)
+EvaluationKeepsStructure == phase = "evaluated" => (z[1] = Q(0) /\ StepRelation /\ SeqStrictlyIncreasing(XLt, z))
 \* mixing ratios exposed per gas are the columns of the table, layer by layer; mu is the weighted mean
 \* of the layer's own row; the tables of this model make a misalignment visible
 MixAlignedWithLayers ==
